@@ -1,10 +1,16 @@
 """C07 — selection protocols turn criteria into valid, correct cross configurations.
 Correspondence between Model/C07_Config.v (a composition of the C17 sampling model) and
-  * the six configuration classes' sample_xconfig (cfg/{Subset,Real,Integer,Binary,SubsetMate,IntegerMate}SelectionConfiguration),
+  * the eight configuration classes' sample_xconfig (cfg/{Subset,Real,Integer,Binary,SubsetMate,IntegerMate,BinaryMate,RealMate}SelectionConfiguration),
+    also through object lifecycles (kind life: copy / deepcopy, the xconfig_decn / ncross / nparent / xconfig_xmap / rng setters, in-place
+    writes into the decision vector, a sampling after every change),
   * core/util/array.py triuix / triudix / xmapix,
-  * <Protocol>.select() of the Subset/Real/Integer/Binary/SubsetMate/IntegerMate protocol bases through concrete protocols
-    (EBV, GEBV, OCS, Random, OHV, UC) with exact optimisers, and the protocols' nmating / nprogeny validation,
-plus the independent predicate (the property stated on the implementation's outputs)."""
+  * <Protocol>.select() of all eight protocol bases through all 24 concrete protocols of the anchored families (EBV, GEBV, OCS, Random,
+    OHV, UC x subset / real / integer / binary) with exact optimisers, also as sessions on ONE protocol object (cross-design setters,
+    breeding values overwritten in place, a relabelled population between calls), and the protocols' nmating / nprogeny validation,
+  * an audit case enumerating every class / function of the anchored modules at run time (COVERED / SKIPPED below; anything
+    unclassified fails the check),
+plus the independent predicate (the property stated on the implementation's outputs).
+Kernel expressions (Gen/C07_Kernel.v) are regenerated from the source by harness/translate/c07_kernel.py on every run (translate())."""
 import copy, itertools, math, random as _pyrandom
 from fractions import Fraction
 import numpy
@@ -25,7 +31,14 @@ LEVEL_TEXT = ("Coq theorems over an executable model that composes the (proved) 
               "nprogeny a selection protocol accepts at construction is accepted by the configuration select() builds; triudix / "
               "triuix enumerate exactly the strictly increasing / non-decreasing k-tuples below n in lexicographic order; the sorting "
               "optimiser returns a top-k set which minimises the summed criterion and commutes with relabelling under distinct criterion "
-              "values; the multi-objective choice is the first argmax of ndset_wt * (declared transformation of the front). The model is "
+              "values; the multi-objective choice is the first argmax of ndset_wt * (declared transformation of the front); a 0/1 vector over "
+              "candidate crosses (BinaryMateSelectionConfiguration) uses the marked crosses floor or ceiling of ncross/k times, a contribution "
+              "vector over candidate crosses (RealMateSelectionConfiguration) floor or ceiling of ncross*x_i/sum(x). 116 kernel expressions "
+              "(index / pointer formulas, size / replace / axis arguments, argument order, cross-map lookup, the setters' checks, the dispatch on "
+              "nobj, score and argmax, the row of the solution and the attributes handed to the configuration in both branches of the eight "
+              "select() methods, lower bound / leaf test / range of triudix and triuix, xmapix, the slice of the sorting optimiser) are regenerated "
+              "from the source on every run, the configurations assembled from them are proved equal to the hand model and the property theorems "
+              "are stated about the assembled programs (C07_kernel_*), so a changed expression breaks the build whatever the cases exercise. The model is "
               "evaluated inside Coq against the implementation's outputs on generated inputs with recorded scripted draws (bit-exact "
               "binary64 for the stochastic-universal-sampling pointers)")
 LEVEL_NOTE = ("trusted: Coq kernel + vm_compute, PrimFloat primitives; the C17 model of tiled_choice / SUS / outcross_shuffle / axis_shuffle "
@@ -35,16 +48,23 @@ LEVEL_NOTE = ("trusted: Coq kernel + vm_compute, PrimFloat primitives; the C17 m
               "protocols pass rng=None, finding C08-selcfg-global-rng) and recorded; theorems are about the Gallina model, the tie to the code is "
               "differential on generated inputs")
 TECHNIQUE = "Coq proof over an executable model (composition of the C17 model); in-Coq vm_compute correspondence with the implementation"
-RULE = ("case = (kind in {cfg, xmap, select}, arguments, draw script); one PRNG. cfg: class in {subset, real, integer, binary, mate, imate}, "
+RULE = ("case = (kind in {cfg, life, xmap, select, audit}, arguments, draw script); one PRNG. cfg: class in {subset, real, integer, binary, mate, imate, bmate, rmate}, "
         "ncross 1..5 x nparent 1..4, decision vectors with sizes 1..8 incl. fewer/equal/more members than slots, duplicates, zeros, sums "
         "that do / do not divide the slot count, bool/int32/int64 storage, scalar or array nmating/nprogeny, invalid shapes and dtypes; "
-        "draw modes identity / reversal / random; a second sample_xconfig call; xmap: n 0..7, k 0..4, both generators and xmapix; select: "
+        "real weights also scaled by 2^e, e in -40..20, and exact zeros next to 2^-40; 130..300 candidates / rows of the cross map with members beyond 127 and 255 "
+        "and int8 / uint8 / int16 / bool storage; draw modes identity / reversal / random; a second sample_xconfig call; the sampled matrix overwritten in place "
+        "(aliasing with decision vector / cross map); life: 2..4 of {copy, deepcopy, set_decn, in-place mutate_decn, set_shape, set_xmap, set_rng}, a sampling "
+        "after each; xmap: n 0..7, k 0..4, both generators and xmapix; select: all 24 protocol classes, breeding values scaled by 2^e (e in -30..15), sessions of "
+        "1..2 further select() calls on the same protocol (setters / in-place breeding values / relabelled population); audit: introspection of the anchored modules; "
         "families EBV (4 encodings), GEBV, OCS, Random, OHV (subset- and integer-mate), UC, 3..8 taxa, 1..2 traits, ties and distinct criteria, zero / negative / "
         "wrong-length nmating and nprogeny (must be refused by the constructor), nobj 1..2, weights of "
         "both signs, sorting optimiser / sorting hill climber / brute-force exact stubs, default and harness transformations of the front, "
         "a relabelled second run; non-trivial = more candidates than slots filled by one member and a non-constant criterion / vector; "
         "distinct by SHA-256 of the case")
 TRUSTED = ["C17 model of the sampling utilities (checked by the C17 correspondence)",
+           "harness/translate/c07_kernel.py (ast translator of the kernel expressions; fail closed: statement sequence of every sample_xconfig, keyword arguments of the sampling calls, "
+           "class of the configuration a protocol builds and the shape of the setters are pinned, anything else is refused); numpy fancy indexing xmap[out,:] selects rows; "
+           "numpy.repeat(arange(n), x) repeats position i x_i times; rng.choice(n) returns a start below n",
            "numpy.argsort / argmax (first maximum) / repeat / fancy indexing semantics",
            "harness-side exact optimiser stubs (enumeration) are correct minimisers over their finite candidate lists",
            "props.c07._Lazy: shuffle(x) with permutation pm sets x[i] = x[pm[i]]; choice returns a[ix] (a scalar request choice(n) returns ix < n); uniform returns the recorded value"]
@@ -54,6 +74,8 @@ ASSUMPTIONS = ["decision vectors as the configuration setters accept them (1-d, 
 CASE_TIMEOUT = 120
 
 F = Fraction
+CROSS_BASED = ("mate", "imate", "bmate", "rmate")        # configurations over candidate crosses (cross map lookup)
+REAL_LIKE = ("real", "rmate")                            # floating contribution vectors
 def _fh(h): return float.fromhex(h)
 def _hx(x): return float(x).hex()
 
@@ -172,7 +194,7 @@ def _mat_par(rng, nc):
     return one(), one()
 
 def _cfg_case(rng, cls=None):
-    cls = cls or rng.choice(["subset", "subset", "real", "real", "integer", "integer", "integer", "binary", "mate", "mate", "imate"])
+    cls = cls or rng.choice(["subset", "subset", "real", "real", "integer", "integer", "integer", "binary", "mate", "mate", "imate", "bmate", "rmate"])
     nc, npar = _shape(rng)
     t = nc * npar
     ntaxa = rng.randint(max(2, npar), 8)
@@ -206,15 +228,23 @@ def _cfg_case(rng, cls=None):
             case["dtype"] = rng.choice(["int64", "int64", "int32"])
         case["decn"] = x
     elif cls == "real":
-        n = ntaxa
-        kind = rng.choice(["grid", "grid", "ints", "ties", "sparse", "one"])
-        if kind == "grid": w = [rng.randint(0, 64) / 64.0 for _ in range(n)]
-        elif kind == "ints": w = [float(rng.randint(0, 5)) for _ in range(n)]
-        elif kind == "ties": w = [rng.choice([0.25, 0.25, 0.5, 1.0]) for _ in range(n)]
-        elif kind == "sparse": w = [rng.choice([0.0, 0.0, 0.0, 0.5, 1.0, 0.125]) for _ in range(n)]
-        else: w = [0.0] * n; w[rng.randrange(n)] = rng.choice([1.0, 0.375])
-        if sum(w) <= 0: w[rng.randrange(n)] = 1.0
+        w, kind = _weights(rng, ntaxa)
         case["decn"] = [_hx(v) for v in w]; case["dtype"] = "float64"; case["wkind"] = kind
+    elif cls in ("bmate", "rmate"):
+        npar = case["nparent"]
+        uniq = rng.random() < 0.6 and npar <= ntaxa
+        combos = list(itertools.combinations(range(ntaxa), npar)) if uniq else list(itertools.combinations_with_replacement(range(ntaxa), npar))
+        if len(combos) > 12: combos = combos[:12]
+        if rng.random() < 0.15: rng.shuffle(combos)
+        case["xmap"] = [list(c) for c in combos]
+        n = len(combos)
+        if cls == "bmate":
+            x = [1 if rng.random() < 0.45 else 0 for _ in range(n)]
+            if sum(x) == 0: x[rng.randrange(n)] = 1
+            case["decn"] = x; case["dtype"] = rng.choice(["int64", "bool", "int8"])
+        else:
+            w, kind = _weights(rng, n)
+            case["decn"] = [_hx(v) for v in w]; case["dtype"] = "float64"; case["wkind"] = kind
     elif cls == "imate":
         npar = case["nparent"]
         uniq = rng.random() < 0.6 and npar <= ntaxa
@@ -245,6 +275,21 @@ def _cfg_case(rng, cls=None):
         case["decn"] = decn; case["dtype"] = "int64"
     return case
 
+def _weights(rng, n):
+    """a non-negative contribution vector with positive sum on a dyadic grid, at a scale 2^e far from 1 in a third of the cases
+    (e in -40..20: every operation of the binary64 model scales exactly), with exact zeros next to tiny non-zero weights"""
+    kind = rng.choice(["grid", "grid", "ints", "ties", "sparse", "one", "tiny"])
+    if kind == "grid": w = [rng.randint(0, 64) / 64.0 for _ in range(n)]
+    elif kind == "ints": w = [float(rng.randint(0, 5)) for _ in range(n)]
+    elif kind == "ties": w = [rng.choice([0.25, 0.25, 0.5, 1.0]) for _ in range(n)]
+    elif kind == "sparse": w = [rng.choice([0.0, 0.0, 0.0, 0.5, 1.0, 0.125]) for _ in range(n)]
+    elif kind == "tiny": w = [rng.choice([0.0, 0.0, 2.0 ** -40, 2.0 ** -40, 3 * 2.0 ** -41, 2.0 ** -30]) for _ in range(n)]
+    else: w = [0.0] * n; w[rng.randrange(n)] = rng.choice([1.0, 0.375])
+    if sum(w) <= 0: w[rng.randrange(n)] = 2.0 ** -40 if kind == "tiny" else 1.0
+    if kind != "tiny" and rng.random() < 0.35:
+        e = rng.choice([-40, -33, -20, -9, 7, 13, 20]); w = [v * 2.0 ** e for v in w]; kind += "*2^%d" % e
+    return w, kind
+
 REGIMES = ("single", "tiling", "exact", "more")
 
 def _cfg_grid_case(rng, cls, regime, nc, npar, mode):
@@ -253,7 +298,7 @@ def _cfg_grid_case(rng, cls, regime, nc, npar, mode):
     entries to the number of slots t (individual-based classes: t = ncross*nparent; cross-based classes: t = ncross):
     single: k = 1 (self-pairings unavoidable for nparent >= 2); tiling: 2k <= t (several whole copies of the pool, an
     individual with count 1 appears several times); exact: k = t; more: k > t"""
-    cross_based = cls in ("mate", "imate")
+    cross_based = cls in CROSS_BASED
     t = nc if cross_based else nc * npar
     if regime == "single": k = 1
     elif regime == "tiling": k = max(1, t // rng.choice([2, 2, 3]))
@@ -269,7 +314,8 @@ def _cfg_grid_case(rng, cls, regime, nc, npar, mode):
         case["ntaxa"] = ntaxa; case["xmap"] = [list(c) for c in combos]
         chosen = rng.sample(range(len(combos)), k)
         if cls == "mate": case["decn"] = chosen; case["dtype"] = "int64"
-        else: case["decn"] = [1 if i in chosen else 0 for i in range(len(combos))]; case["dtype"] = rng.choice(["int64", "int32"])
+        elif cls == "rmate": case["decn"] = [_hx(1.0 if i in chosen else 0.0) for i in range(len(combos))]; case["dtype"] = "float64"; case["wkind"] = "grid01"
+        else: case["decn"] = [1 if i in chosen else 0 for i in range(len(combos))]; case["dtype"] = rng.choice(["int64", "int32"] if cls == "imate" else ["int64", "bool", "int8"])
         return case
     ntaxa = max(k + rng.randint(0, 3), npar, 2)
     case["ntaxa"] = ntaxa
@@ -283,7 +329,7 @@ def _cfg_grid_case(rng, cls, regime, nc, npar, mode):
 
 def _cfg_grid(rng, tier):
     out = []
-    for cls in ("subset", "integer", "binary", "real", "mate", "imate"):
+    for cls in ("subset", "integer", "binary", "real", "mate", "imate", "bmate", "rmate"):
         for regime in REGIMES:
             for npar in (1, 2, 3, 4):
                 for nc in ((1, rng.choice([2, 3])) if tier == "quick" else (1, 2, 3, 4)):
@@ -307,6 +353,32 @@ def _cfg_error_cases(rng):
           base(cls="real", decn=[_hx(0.0)] * 5, dtype="float64")]
     return cs
 
+def _cfg_large_case(rng):
+    """more candidates than int8 / uint8 can count, members beyond 127 and 255, narrow storage of the decision vector"""
+    cls = rng.choice(["subset", "binary", "integer", "real", "bmate", "imate"])
+    nc, npar = rng.choice([(1, 2), (2, 2), (3, 1), (2, 3)])
+    ntaxa = rng.choice([130, 200, 258, 300])
+    case = {"kind": "cfg", "cls": cls, "ncross": nc, "nparent": npar, "nmating": 1, "nprogeny": 1, "ntaxa": ntaxa, "draw": _draw(rng), "ret2": True, "large": True}
+    hi = [ntaxa - 1, ntaxa - 2, 128, 129, min(ntaxa - 1, 256), 127, 5]
+    k = rng.randint(1, nc * npar + 1)
+    chosen = rng.sample(sorted(set(hi)), min(k, len(set(hi))))
+    if cls == "subset": case["decn"] = chosen; case["dtype"] = rng.choice(["int64", "int32", "int16"])
+    elif cls == "binary": case["decn"] = [1 if i in chosen else 0 for i in range(ntaxa)]; case["dtype"] = rng.choice(["int8", "bool", "uint8"])
+    elif cls == "integer":
+        x = [0] * ntaxa
+        for i in chosen: x[i] = rng.choice([1, 1, 2, 100])       # counts whose sum exceeds 127
+        case["decn"] = x; case["dtype"] = rng.choice(["int8", "int16", "int64"])
+    elif cls == "real": case["decn"] = [_hx(0.5 if i in chosen else 0.0) for i in range(ntaxa)]; case["dtype"] = "float64"; case["wkind"] = "large"
+    else:
+        # candidate crosses: 130..300 rows of the map
+        case["ntaxa"] = 30; npar = case["nparent"] = 2
+        combos = list(itertools.combinations(range(30), 2))[:ntaxa]
+        case["xmap"] = [list(c) for c in combos]
+        x = [0] * len(combos)
+        for i in chosen: x[i] = 1 if cls == "bmate" else rng.choice([1, 2, 100])
+        case["decn"] = x; case["dtype"] = rng.choice(["int8", "bool"] if cls == "bmate" else ["int8", "int16", "int64"])
+    return case
+
 def _xmap_case(rng):
     fn = rng.choice(["triuix", "triudix", "xmapix", "xmapix"])
     n = rng.randint(0, 7); k = rng.choice([0, 1, 1, 2, 2, 2, 3, 3, 4])
@@ -315,12 +387,14 @@ def _xmap_case(rng):
 
 FAMILIES = [("ebv", "subset"), ("ebv", "subset"), ("ebv", "subset"), ("ebv", "real"), ("ebv", "integer"), ("ebv", "binary"),
             ("gebv", "subset"), ("gebv", "binary"), ("ocs", "subset"), ("ocs", "real"), ("random", "subset"), ("random", "integer"),
-            ("ohv", "mate"), ("ohv", "mate"), ("uc", "mate"), ("ohv", "imate")]
+            ("ohv", "mate"), ("ohv", "mate"), ("uc", "mate"), ("ohv", "imate"),
+            ("gebv", "real"), ("gebv", "integer"), ("ocs", "integer"), ("ocs", "binary"), ("random", "real"), ("random", "binary"),
+            ("ohv", "bmate"), ("ohv", "rmate"), ("uc", "imate"), ("uc", "bmate"), ("uc", "rmate")]
 
 def _select_case(rng, fam=None, enc=None, nobj=None, algo=None):
     if fam is None: fam, enc = rng.choice(FAMILIES)
-    mate = enc in ("mate", "imate")
-    ntaxa = (rng.randint(3, 4) if enc == "imate" else rng.randint(3, 6)) if mate else rng.randint(3, 8)
+    mate = enc in CROSS_BASED
+    ntaxa = (rng.randint(3, 4) if enc != "mate" else rng.randint(3, 6)) if mate else rng.randint(3, 8)
     if enc in ("real",): ntaxa = min(ntaxa, 6)
     if enc in ("integer",): ntaxa = min(ntaxa, 7)
     nvrnt = rng.randint(4, 6)
@@ -350,6 +424,7 @@ def _select_case(rng, fam=None, enc=None, nobj=None, algo=None):
             "bv": bv, "u": u, "ncross": nc, "nparent": npar, "nmating": nm, "nprogeny": npg, "nobj": nobj, "draw": _draw(rng),
             "unscale": rng.random() < 0.7, "loc": [rng.randint(-16, 16) / 8.0 for _ in range(ntrait)], "scale": [rng.choice([1.0, 2.0, 0.5]) for _ in range(ntrait)],
             "miscout": rng.random() < 0.85}
+    if rng.random() < (0.4 if nobj == 2 else 0.2): case["bvexp"] = rng.choice([-30, -12, 9, 15])      # breeding values at a scale far from 1 (still dyadic)
     nlat = (1 + ntrait) if fam == "ocs" else ntrait
     if nobj == 1:
         if nlat > 1: case["obj_trans"] = "sum"
@@ -367,7 +442,34 @@ def _select_case(rng, fam=None, enc=None, nobj=None, algo=None):
     if mate: case["unique"] = rng.random() < 0.7 if fam == "ohv" else True
     if rng.random() < 0.5:
         pi = list(range(ntaxa)); rng.shuffle(pi); case["relabel"] = pi
+    if rng.random() < 0.35: case["session"] = _session_steps(rng, case)
     return case
+
+def _session_steps(rng, case):
+    """further select() calls on the SAME protocol object: cross-design parameters changed through the setters, the breeding
+    values overwritten in place in the same matrix object, a relabelled population - each result must depend on the state at
+    that call only"""
+    steps = []
+    mate = case["enc"] in CROSS_BASED
+    nc, npar = case["ncross"], case["nparent"]
+    for _ in range(rng.randint(1, 2)):
+        st = {}
+        r = rng.random()
+        if r < 0.45:
+            nc2 = rng.randint(1, 3)
+            if case["enc"] == "subset" and case["family"] != "random": nc2 = rng.randint(1, max(1, case["ntaxa"] // npar))
+            st["set"] = {"ncross": nc2}
+            nm, npg = _mat_par(rng, nc2); st["set"]["nmating"] = nm; st["set"]["nprogeny"] = npg
+            if not mate and case["family"] != "uc" and rng.random() < 0.4 and case["enc"] != "subset": st["set"]["nparent"] = rng.choice([1, 2, 3])
+            nc = nc2
+        elif r < 0.75:
+            nt = case["ntrait"]
+            cols = [rng.sample(range(-40, 41), case["ntaxa"]) for _ in range(nt)]
+            st["bv"] = [[cols[t][i] for t in range(nt)] for i in range(case["ntaxa"])]
+        else:
+            pi = list(range(case["ntaxa"])); rng.shuffle(pi); st["perm"] = pi
+        steps.append(st)
+    return steps
 
 def _select_fixed():
     """hand-placed corners"""
@@ -381,6 +483,7 @@ def _select_fixed():
     two = dict(ntrait=2, nobj=2, bv=[[40, 0], [0, 40], [1, 1], [2, 2], [3, 3], [0, 0]], u=[[1, 0], [2, 1], [-3, 2], [4, 0], [0, 1]],
                ndset="wsum", ndset_w=[0.0, 0.0], front_order="rev")
     pair = {"mode": "pair", "seed": 5}
+    mo2 = dict(ntrait=2, nobj=2, bv=[[8, 1], [24, 2], [16, 5], [40, 0], [0, 9], [32, 3]], u=[[1, 0], [2, 1], [-3, 2], [4, 0], [0, 1]])
     return [v(), v(obj_wt=-1.0), v(ncross=3, nparent=2), v(ncross=1, nparent=1), v(ncross=6, nparent=1, relabel=[1, 0, 3, 2, 5, 4]),
             v(bv=[[8], [8], [8], [8], [8], [8]]), v(bv=[[8], [24], [24], [24], [0], [32]]), v(miscout=False),
             v(enc="binary", algo="stub"), v(enc="integer", algo="stub"), v(enc="real", algo="stub"),
@@ -389,6 +492,11 @@ def _select_fixed():
               ndset="wsum", ndset_w=[1.0, 0.5], ndset_wt=-1.0),
             v(ntrait=2, nobj=2, bv=[[8, 1], [24, 2], [16, 5], [40, 0], [0, 9], [32, 3]], u=[[1, 0], [2, 1], [-3, 2], [4, 0], [0, 1]], algo="stub",
               ndset="wsum", ndset_w=[0.0, 0.0], front_order="rev"),
+            # criteria and front scores at a scale of 2^-30 (a rounded / tolerance-based comparison would see ties only)
+            v(bvexp=-30), v(bvexp=-30, enc="binary", algo="stub"), v(bvexp=15, ncross=3),
+            v(enc="subset", algo="stub", bvexp=-30, ndset="wsum", ndset_w=[1.0, 0.5], **mo2), v(enc="real", algo="stub", bvexp=-30, ndset="wsum", ndset_w=[1.0, 0.5], **mo2),
+            v(enc="integer", algo="stub", bvexp=-30, ndset="wsum", ndset_w=[0.5, 1.0], ndset_wt=-1.0, **mo2), v(enc="binary", algo="stub", bvexp=-30, ndset="wsum", ndset_w=[1.0, 0.5], **mo2),
+            v(enc="real", algo="stub", bvexp=-30, ndset="wsum", ndset_w=[1.0, 2.0], front_order="rev", **mo2), v(enc="real", algo="stub", bvexp=-30, **mo2),
             v(nmating=0), v(nprogeny=[3, 0]), v(nmating=[1, 1, 1]), v(nprogeny=[2]), v(nprogeny=0, enc="integer", algo="stub"),
             v(nmating=[2, 0], family="ohv", enc="mate", unique=True), v(family="ohv", enc="imate", unique=True, algo="stub", ntaxa=4, bv=[[8], [24], [16], [40]]),
             # protocol-level paths into the tiling / single-individual / pairing corners of every individual-based configuration
@@ -402,9 +510,64 @@ def _select_fixed():
             v(ncross=1, nparent=2, draw=pair), v(ncross=1, nparent=4, draw=pair), v(ncross=2, nparent=3, draw=pair), v(ncross=1, nparent=3),
             v(family="ohv", enc="mate", unique=False), v(family="ohv", enc="mate", unique=True, nparent=3, ncross=2), v(family="uc", enc="mate", unique=True)]
 
+def _new_decn(rng, cls, nunit, t, k=None):
+    """a decision vector of class cls over nunit units (candidates, or rows of the cross map); k: required length (subset / mate)"""
+    if cls in ("subset", "mate"):
+        k = k or rng.randint(1, min(nunit, t + 2))
+        return rng.sample(range(nunit), k) if k <= nunit and rng.random() < 0.85 else [rng.randrange(nunit) for _ in range(k)]
+    if cls in ("binary", "bmate"):
+        x = [1 if rng.random() < 0.5 else 0 for _ in range(nunit)]
+        if sum(x) == 0: x[rng.randrange(nunit)] = 1
+        return x
+    if cls in ("integer", "imate"):
+        x = [rng.choice([0, 0, 1, 2, 3]) for _ in range(nunit)]
+        if sum(x) == 0: x[rng.randrange(nunit)] = 2
+        return x
+    return [_hx(v) for v in _weights(rng, nunit)[0]]
+
+def _life_case(rng, cls=None):
+    """object lifecycle of a configuration: the object is copied, its decision vector / shape / cross map / generator are replaced
+    through the setters or overwritten in place, and it is sampled again after every change: every sample must be the model's
+    for the state at THAT call"""
+    cls = cls or rng.choice(["subset", "integer", "binary", "real", "mate", "imate", "bmate", "rmate"])
+    case = _cfg_case(rng, cls)
+    case["kind"] = "life"; case["nmating"] = rng.randint(1, 3); case["nprogeny"] = rng.randint(1, 3)
+    cross = cls in CROSS_BASED
+    nunit = len(case["xmap"]) if cross else case["ntaxa"]
+    nc, npar = case["ncross"], case["nparent"]
+    klen = len(case["decn"])
+    steps = []
+    for _ in range(rng.randint(2, 4)):
+        t = nc if cross else nc * npar
+        op = rng.choice(["sample", "copy", "deepcopy", "set_decn", "set_decn", "mutate_decn", "mutate_decn", "set_shape", "set_shape", "set_rng"] + (["set_xmap"] if cross else []))
+        st = {"op": op}
+        if op == "set_decn": st["decn"] = _new_decn(rng, cls, nunit, t); klen = len(st["decn"])
+        elif op == "mutate_decn": st["decn"] = _new_decn(rng, cls, nunit, t, k=klen)
+        elif op == "set_shape":
+            nc = rng.randint(1, 4); st["ncross"] = nc
+            if not cross: npar = rng.choice([1, 2, 2, 3]); st["nparent"] = npar
+        elif op == "set_rng": st["draw"] = _draw(rng)
+        elif op == "set_xmap":
+            xm = [list(r) for r in case["xmap"]]; rng.shuffle(xm); st["xmap"] = xm
+        steps.append(st)
+        if op != "sample": steps.append({"op": "sample"})
+    case["steps"] = steps
+    return case
+
+def _life_states(case):
+    """(ncross, nparent, decn, xmap) in force at the construction and at every step (tracked from the case alone)"""
+    nc, npar, decn, xmap = case["ncross"], case["nparent"], list(case["decn"]), case.get("xmap")
+    out = [(nc, npar, decn, xmap)]
+    for st in case["steps"]:
+        if st["op"] in ("set_decn", "mutate_decn"): decn = list(st["decn"])
+        elif st["op"] == "set_shape": nc = st["ncross"]; npar = st.get("nparent", npar)
+        elif st["op"] == "set_xmap": xmap = st["xmap"]
+        out.append((nc, npar, decn, xmap))
+    return out
+
 def gen_cases(rng, tier):
     q = tier == "quick"
-    cases = []
+    cases = [{"kind": "audit"}]
     cases += _cfg_error_cases(rng)
     cases += _cfg_grid(rng, tier)
     cases += _select_fixed()
@@ -413,9 +576,12 @@ def gen_cases(rng, tier):
             for _ in range(2 if q else 40): cases.append(_select_case(rng, fam, enc, nobj))
     for _ in range(60 if q else 1200): cases.append(_select_case(rng))
     for _ in range(2 if q else 30): cases.append(_select_case(rng, "ebv", "subset", 1, "ga"))
-    for cls in ("subset", "real", "integer", "binary", "mate", "imate"):
+    for cls in ("subset", "real", "integer", "binary", "mate", "imate", "bmate", "rmate"):
         for _ in range(12 if q else 200): cases.append(_cfg_case(rng, cls))
     for _ in range(90 if q else 1500): cases.append(_cfg_case(rng))
+    for cls in ("subset", "real", "integer", "binary", "mate", "imate", "bmate", "rmate"):
+        for _ in range(5 if q else 80): cases.append(_life_case(rng, cls))
+    for _ in range(12 if q else 120): cases.append(_cfg_large_case(rng))
     seen = set()
     for _ in range(40 if q else 200):
         c = _xmap_case(rng); key = (c["fn"], c["n"], c["k"], c["unique"] if c["fn"] == "xmapix" else None)
@@ -434,25 +600,30 @@ def _pgmat(ntaxa, nvrnt=4, seed=1):
 def _ival(v, nc):
     return numpy.array(v, dtype="int64") if isinstance(v, list) else int(v)
 
+CFG_CLASS = {"subset": "SubsetSelectionConfiguration", "real": "RealSelectionConfiguration", "integer": "IntegerSelectionConfiguration",
+             "binary": "BinarySelectionConfiguration", "mate": "SubsetMateSelectionConfiguration", "imate": "IntegerMateSelectionConfiguration",
+             "bmate": "BinaryMateSelectionConfiguration", "rmate": "RealMateSelectionConfiguration"}
+
+def _cfg_class(cls):
+    import importlib
+    name = CFG_CLASS[cls]
+    return getattr(importlib.import_module("pybrops.breed.prot.sel.cfg." + name), name)
+
+def _mk_decn(vals, dtype):
+    if dtype == "float64": return numpy.array([_fh(h) if isinstance(h, str) else float(h) for h in vals], dtype=float)
+    return numpy.array(vals, dtype=dtype)
+
 def _run_cfg(case):
-    from pybrops.breed.prot.sel.cfg.SubsetSelectionConfiguration import SubsetSelectionConfiguration
-    from pybrops.breed.prot.sel.cfg.RealSelectionConfiguration import RealSelectionConfiguration
-    from pybrops.breed.prot.sel.cfg.IntegerSelectionConfiguration import IntegerSelectionConfiguration
-    from pybrops.breed.prot.sel.cfg.BinarySelectionConfiguration import BinarySelectionConfiguration
-    from pybrops.breed.prot.sel.cfg.SubsetMateSelectionConfiguration import SubsetMateSelectionConfiguration
-    from pybrops.breed.prot.sel.cfg.IntegerMateSelectionConfiguration import IntegerMateSelectionConfiguration
-    C = {"subset": SubsetSelectionConfiguration, "real": RealSelectionConfiguration, "integer": IntegerSelectionConfiguration,
-         "binary": BinarySelectionConfiguration, "mate": SubsetMateSelectionConfiguration, "imate": IntegerMateSelectionConfiguration}[case["cls"]]
+    C = _cfg_class(case["cls"])
     pg = _pgmat(case["ntaxa"])
-    if case["dtype"] == "float64": decn = numpy.array([_fh(h) if isinstance(h, str) else float(h) for h in case["decn"]], dtype=float)
-    else: decn = numpy.array(case["decn"], dtype=case["dtype"])
+    decn = _mk_decn(case["decn"], case["dtype"])
     decn0 = decn.copy()
     kw = {}
-    if case["cls"] in ("mate", "imate"):
+    if case["cls"] in CROSS_BASED:
         xm = numpy.array(case["xmap"], dtype="int64"); kw["xconfig_xmap"] = xm; xm0 = xm.copy()
     rng = _lazy(case["draw"])
     out = {}
-    if case["cls"] == "real" and decn.dtype.kind == "f":
+    if case["cls"] in REAL_LIKE and decn.dtype.kind == "f":
         out["order"] = [int(i) for i in decn.argsort()[::-1]]
     try:
         c = C(ncross=case["ncross"], nparent=case["nparent"], nmating=_ival(case["nmating"], 0), nprogeny=_ival(case["nprogeny"], 0),
@@ -471,10 +642,175 @@ def _run_cfg(case):
         out["second"] = {"xconfig": x2.tolist(), "ret_none": r is None, "ret_is_xconfig": (r is c.xconfig) if r is not None else None,
                          "draws": rng.used, "fresh": x2 is not x}
         out["decn_same2"] = bool(numpy.array_equal(decn, decn0))
-        if case["cls"] in ("mate", "imate"): out["xmap_same"] = bool(numpy.array_equal(xm, xm0)) and (c.xconfig_xmap is xm)
+        if case["cls"] in CROSS_BASED: out["xmap_same"] = bool(numpy.array_equal(xm, xm0)) and (c.xconfig_xmap is xm)
+        # aliasing: the sampled matrix must be the configuration's own - overwrite it in place and look at the inputs again
+        shares = bool(numpy.shares_memory(x2, decn)) or (case["cls"] in CROSS_BASED and bool(numpy.shares_memory(x2, xm)))
+        x2[...] = -7
+        out["alias"] = {"shares": shares, "decn_intact": bool(numpy.array_equal(decn, decn0)),
+                        "xmap_intact": bool(numpy.array_equal(xm, xm0)) if case["cls"] in CROSS_BASED else True,
+                        "first_intact": (x is x2) or bool(numpy.array_equal(x, numpy.array(out["xconfig"])))}
     except Exception as e:
         out["raised"] = type(e).__name__; out["msg"] = str(e)[:200]; out["draws_partial"] = rng.used
     return out
+
+def _run_life(case):
+    C = _cfg_class(case["cls"])
+    cls = case["cls"]; cross = cls in CROSS_BASED
+    pg = _pgmat(case["ntaxa"])
+    decn = _mk_decn(case["decn"], case["dtype"])
+    kw = {}
+    if cross: kw["xconfig_xmap"] = numpy.array(case["xmap"], dtype="int64")
+    rng = _lazy(case["draw"])
+    out = {"steps": []}
+    def snap(c, rng, rec):
+        x = numpy.asarray(c.xconfig)
+        rec["xconfig"] = x.tolist(); rec["shape"] = list(x.shape); rec["dtype"] = str(x.dtype)
+        rec["draws"] = rng.used; rng.used = []
+        d = numpy.asarray(c.xconfig_decn)
+        if d.dtype.kind == "f": rec["order"] = [int(i) for i in d.argsort()[::-1]]
+        rec["decn_now"] = [_hx(v) for v in d] if d.dtype.kind == "f" else [int(v) for v in d]
+        if cross: rec["xmap_now"] = numpy.asarray(c.xconfig_xmap).tolist()
+        rec["ncross"] = int(c.ncross); rec["nparent"] = int(c.nparent)
+    try:
+        c = C(ncross=case["ncross"], nparent=case["nparent"], nmating=_ival(case["nmating"], 0), nprogeny=_ival(case["nprogeny"], 0),
+              pgmat=pg, xconfig_decn=decn, rng=rng, **kw)
+        rec = {"op": "init"}; snap(c, rng, rec); out["steps"].append(rec)
+        orig = None
+        for st in case["steps"]:
+            op = st["op"]; rec = {"op": op}
+            if op == "sample":
+                r = c.sample_xconfig(return_xconfig=True)
+                rec["ret_is_xconfig"] = r is c.xconfig
+                snap(c, rng, rec)
+                if orig is not None:
+                    rec["orig_intact"] = bool(numpy.array_equal(numpy.asarray(orig[0].xconfig), orig[1]))
+            else:
+                if op == "copy":
+                    orig = (c, numpy.asarray(c.xconfig).copy()); c2 = copy.copy(c)
+                    rec["rng_shared"] = c2.rng is c.rng; rec["decn_shared"] = c2.xconfig_decn is c.xconfig_decn; rec["pgmat_shared"] = c2.pgmat is c.pgmat
+                    c = c2
+                elif op == "deepcopy":
+                    orig = (c, numpy.asarray(c.xconfig).copy())
+                    keep = c._rng; c._rng = None                       # the scripted generator is not copied: detached, then set again
+                    try: c2 = copy.deepcopy(c)
+                    finally: c._rng = keep
+                    c2.rng = rng
+                    rec["decn_shared"] = bool(numpy.shares_memory(c2.xconfig_decn, c.xconfig_decn)); rec["class_same"] = type(c2) is type(c)
+                    rec["xconfig_equal"] = bool(numpy.array_equal(c2.xconfig, c.xconfig)) and not numpy.shares_memory(c2.xconfig, c.xconfig)
+                    c = c2
+                elif op == "set_decn": c.xconfig_decn = _mk_decn(st["decn"], case["dtype"])
+                elif op == "mutate_decn": c.xconfig_decn[...] = _mk_decn(st["decn"], case["dtype"])
+                elif op == "set_shape":
+                    c.ncross = st["ncross"]
+                    if "nparent" in st: c.nparent = st["nparent"]
+                elif op == "set_xmap": c.xconfig_xmap = numpy.array(st["xmap"], dtype="int64")
+                elif op == "set_rng":
+                    old = rng; rng = _lazy(st["draw"]); c.rng = rng; rec["rng_is_new"] = c.rng is rng
+                    out.setdefault("retired", []).append(old)
+                rec["stale_draws"] = len(rng.used)                  # a setter / copy must not draw
+            out["steps"].append(rec)
+        out["retired_used"] = [len(r.used) for r in out.pop("retired", [])]
+    except Exception as e:
+        import traceback
+        out.pop("retired", None)
+        out["raised"] = type(e).__name__; out["msg"] = str(e)[:200]; out["at"] = len(out["steps"]); out["tb"] = traceback.format_exc()[-500:]
+    return out
+
+# ------------------------------------------------------------------ entry points (tools/PHASE2_BRIEF.md A.1): what is driven, what is not and why
+CFG_COVERED = {name: (["ncross", "nparent", "nmating", "nprogeny", "pgmat", "xconfig_decn"] + (["xconfig_xmap"] if cls in CROSS_BASED else []) + ["rng", "kwargs"])
+               for cls, name in CFG_CLASS.items()}
+CFG_SKIPPED = {"SelectionConfiguration": "semi-abstract base (no constructor): its ncross / nparent / nmating / nprogeny / xconfig setters are driven through every concrete class",
+               "MateSelectionConfiguration": "semi-abstract base: its xconfig_xmap setter is driven through the four mate configurations",
+               "SampledSelectionConfigurationMixin": "abstract mixin: xconfig_decn / rng setters and sample_xconfig are driven through every concrete class",
+               "SimpleSelectionConfiguration": "carries a cross configuration supplied by the caller; nothing is sampled and no selection protocol builds it",
+               "SimpleMateSelectionConfiguration": "carries a cross configuration supplied by the caller; nothing is sampled and no selection protocol builds it",
+               "check_is_SelectionConfiguration": "type guard", "check_is_MateSelectionConfiguration": "type guard"}
+PROT_MODULES = ["EstimatedBreedingValueSelection", "GenomicEstimatedBreedingValueSelection", "OptimalContributionSelection",
+                "UsefulnessCriterionSelection", "OptimalHaploidValueSelection", "RandomSelection"]
+PROT_BASES = ["SelectionProtocol", "SubsetSelectionProtocol", "RealSelectionProtocol", "IntegerSelectionProtocol", "BinarySelectionProtocol",
+              "SubsetMateSelectionProtocol", "IntegerMateSelectionProtocol", "BinaryMateSelectionProtocol", "RealMateSelectionProtocol", "MateSelectionProtocol"]
+FAMILY_PREFIX = {"ebv": "EstimatedBreedingValue", "gebv": "GenomicEstimatedBreedingValue", "ocs": "OptimalContribution", "uc": "UsefulnessCriterion",
+                 "ohv": "OptimalHaploidValue", "random": "Random"}
+ENC_SUFFIX = {"subset": "Subset", "real": "Real", "integer": "Integer", "binary": "Binary", "mate": "Subset", "imate": "Integer", "bmate": "Binary", "rmate": "Real"}
+PROT_SKIPPED = {"*SelectionMixin": "mixins holding the family's parameters (ntrait, unscale, ...): driven through the concrete classes",
+                "check_is_*": "type guards"}
+ARRAY_COVERED = ["triuix", "triudix", "xmapix"]
+ARRAY_SKIPPED = {"get_axis": "axis normalisation helper, not used by the selection protocols", "sqarrayix": "full square index generator, not used by the cross maps",
+                 "sliceaxisix": "used by axis_shuffle: property C17", "flattenix": "not used by the selection protocols"}
+
+def _prot_covered():
+    """concrete protocol class -> (family, encoding) as driven by kind select"""
+    out = {}
+    for fam, enc in sorted(set(FAMILIES)):
+        mate = fam in ("ohv", "uc")
+        if mate != (enc in CROSS_BASED): continue
+        out[FAMILY_PREFIX[fam] + ENC_SUFFIX[enc] + "Selection"] = (fam, enc)
+    return out
+
+def _audit():
+    import inspect, pkgutil, importlib
+    import pybrops.breed.prot.sel.cfg as cfgpkg
+    out = {"cfg": {}, "cfg_fn": [], "prot": {}, "prot_fn": [], "bases": {}, "array": [], "sample_params": {}, "select_params": {}}
+    for m in pkgutil.iter_modules(cfgpkg.__path__):
+        mod = importlib.import_module("pybrops.breed.prot.sel.cfg." + m.name)
+        for n, o in vars(mod).items():
+            if n.startswith("_") or getattr(o, "__module__", None) != mod.__name__: continue
+            if inspect.isclass(o):
+                out["cfg"][n] = list(inspect.signature(o.__init__).parameters)[1:] if "__init__" in vars(o) else None
+                if "sample_xconfig" in vars(o) and not inspect.isabstract(o): out["sample_params"][n] = list(inspect.signature(o.sample_xconfig).parameters)[1:]
+            elif inspect.isfunction(o): out["cfg_fn"].append(n)
+    for name in PROT_MODULES:
+        mod = importlib.import_module("pybrops.breed.prot.sel." + name)
+        for n, o in vars(mod).items():
+            if n.startswith("_") or getattr(o, "__module__", None) != mod.__name__: continue
+            if inspect.isclass(o): out["prot"][n] = [b.__name__ for b in o.__mro__ if b.__name__ in PROT_BASES][:1]
+            elif inspect.isfunction(o): out["prot_fn"].append(n)
+    for name in PROT_BASES:
+        try: mod = importlib.import_module("pybrops.breed.prot.sel." + name)
+        except ImportError: continue
+        cls = getattr(mod, name)
+        out["bases"][name] = sorted(k for k, v in vars(cls).items() if not k.startswith("_"))
+        if "select" in vars(cls): out["select_params"][name] = list(inspect.signature(cls.select).parameters)[1:]
+    from pybrops.core.util import array
+    out["array"] = sorted(n for n, o in vars(array).items() if inspect.isfunction(o) and o.__module__ == array.__name__)
+    return out
+
+SELECT_PARAMS = ["pgmat", "gmat", "ptdf", "bvmat", "gpmod", "t_cur", "t_max", "miscout", "kwargs"]
+BASES_DRIVEN = {"SubsetSelectionProtocol", "RealSelectionProtocol", "IntegerSelectionProtocol", "BinarySelectionProtocol",
+                "SubsetMateSelectionProtocol", "IntegerMateSelectionProtocol", "BinaryMateSelectionProtocol", "RealMateSelectionProtocol"}
+
+def _pred_audit(case, out):
+    bad = []
+    for n, params in out["cfg"].items():
+        if n in CFG_COVERED:
+            if params != CFG_COVERED[n]: bad.append("constructor parameters of %s are %r, the C07 check drives %r" % (n, params, CFG_COVERED[n]))
+            if out["sample_params"].get(n) != ["return_xconfig"]: bad.append("parameters of %s.sample_xconfig are %r" % (n, out["sample_params"].get(n)))
+        elif n not in CFG_SKIPPED: bad.append("configuration class %s is neither driven nor classified by the C07 check" % n)
+    for n in CFG_COVERED:
+        if n not in out["cfg"]: bad.append("configuration class %s is missing" % n)
+    for n in out["cfg_fn"]:
+        if n not in CFG_SKIPPED: bad.append("function %s of the configuration package is not classified by the C07 check" % n)
+    cov = _prot_covered()
+    for n, base in out["prot"].items():
+        if n.endswith("Mixin"): continue
+        if n not in cov: bad.append("protocol class %s (%s) is neither driven nor classified by the C07 check" % (n, base))
+        else:
+            enc = cov[n][1]; want = {"subset": "SubsetSelectionProtocol", "real": "RealSelectionProtocol", "integer": "IntegerSelectionProtocol", "binary": "BinarySelectionProtocol",
+                                     "mate": "SubsetMateSelectionProtocol", "imate": "IntegerMateSelectionProtocol", "bmate": "BinaryMateSelectionProtocol", "rmate": "RealMateSelectionProtocol"}[enc]
+            if base != [want]: bad.append("protocol class %s derives from %r, the C07 check drives it as a %s" % (n, base, want))
+    for n in cov:
+        if n not in out["prot"]: bad.append("protocol class %s is missing" % n)
+    for n in out["prot_fn"]:
+        if not n.startswith("check_is_"): bad.append("function %s of a protocol module is not classified by the C07 check" % n)
+    for n, params in out["select_params"].items():
+        if params != SELECT_PARAMS: bad.append("parameters of %s.select are %r, the C07 check drives %r" % (n, params, SELECT_PARAMS))
+    for n in BASES_DRIVEN:
+        if n not in out["select_params"]: bad.append("%s no longer defines select()" % n)
+    for n in out["array"]:
+        if n not in ARRAY_COVERED and n not in ARRAY_SKIPPED: bad.append("function %s of pybrops.core.util.array is not classified by the C07 check" % n)
+    for n in ARRAY_COVERED:
+        if n not in out["array"]: bad.append("function %s is missing from pybrops.core.util.array" % n)
+    return bad
 
 def _run_xmap(case):
     from pybrops.core.util import array as A
@@ -499,6 +835,8 @@ def run_impl(case):
     with numpy.errstate(all="ignore"), warnings.catch_warnings():
         warnings.simplefilter("ignore")
         if case["kind"] == "cfg": return _run_cfg(case)
+        if case["kind"] == "life": return _run_life(case)
+        if case["kind"] == "audit": return _audit()
         if case["kind"] == "xmap": return _run_xmap(case)
         if case["kind"] == "select": return _run_select(case)
     raise ValueError(case["kind"])
@@ -513,7 +851,7 @@ def _population(case, perm=None):
     n, p, nt = case["ntaxa"], case["nvrnt"], case["ntrait"]
     g = numpy.random.Generator(numpy.random.PCG64(int(case["gseed"])))
     mat = g.integers(0, 2, size=(2, n, p)).astype("int8")
-    bv = numpy.array(case["bv"], dtype=float) / 8.0
+    bv = numpy.array(case["bv"], dtype=float) / 8.0 * 2.0 ** case.get("bvexp", 0)
     ix = numpy.arange(n) if perm is None else numpy.array(perm, dtype=int)
     mat = mat[:, ix, :]; bv = bv[ix, :]
     taxa = numpy.array(["t%02d" % i for i in ix], dtype=object)
@@ -549,13 +887,25 @@ def _candidates(enc, prob, case):
             r = _pyrandom.Random(case["draw"]["seed"]); combos = r.sample(combos, 400)
         return [numpy.array(c, dtype="int64") for c in combos]
     n = int(prob.ndecn)
-    if enc == "binary": vals = [0, 1]
+    if enc in ("binary", "bmate"): vals = [0, 1]
     elif enc in ("integer", "imate"): vals = [0, 1, 2] if n <= 6 else [0, 1]
     else: vals = [0.0, 0.25, 0.5, 1.0] if n <= 5 else [0.0, 0.5, 1.0]
     out = []
+    dt = float if enc in REAL_LIKE else "int64"
+    if len(vals) ** n > 50000:
+        # too many vectors to enumerate (one entry per candidate cross): a seeded sample of 1200 distinct non-zero vectors,
+        # unit vectors first (so that a one-objective optimum over single crosses is present)
+        r = _pyrandom.Random(case["draw"]["seed"]); seen = set()
+        for i in range(n):
+            t = tuple(vals[-1] if j == i else vals[0] for j in range(n)); seen.add(t); out.append(numpy.array(t, dtype=dt))
+        while len(out) < 1200:
+            t = tuple(r.choice(vals) for _ in range(n))
+            if sum(t) <= 0 or t in seen: continue
+            seen.add(t); out.append(numpy.array(t, dtype=dt))
+        return out
     for t in itertools.product(vals, repeat=n):
         if sum(t) <= 0: continue
-        out.append(numpy.array(t, dtype=float if enc == "real" else "int64"))
+        out.append(numpy.array(t, dtype=float if enc in REAL_LIKE else "int64"))
     if len(out) > 1200:
         r = _pyrandom.Random(case["draw"]["seed"]); out = r.sample(out, 1200)
     return out
@@ -573,7 +923,8 @@ def _stub_algo(enc, case):
     from pybrops.opt.soln.BinarySolution import BinarySolution
     base, Soln = {"subset": (SubsetOptimizationAlgorithm, SubsetSolution), "mate": (SubsetOptimizationAlgorithm, SubsetSolution),
                   "real": (RealOptimizationAlgorithm, RealSolution), "integer": (IntegerOptimizationAlgorithm, IntegerSolution),
-                  "binary": (BinaryOptimizationAlgorithm, BinarySolution), "imate": (IntegerOptimizationAlgorithm, IntegerSolution)}[enc]
+                  "binary": (BinaryOptimizationAlgorithm, BinarySolution), "imate": (IntegerOptimizationAlgorithm, IntegerSolution),
+                  "bmate": (BinaryOptimizationAlgorithm, BinarySolution), "rmate": (RealOptimizationAlgorithm, RealSolution)}[enc]
     class Stub(base):
         def __init__(self): self.ncalls = 0
         def minimize(self, prob, miscout=None, **kwargs):
@@ -621,7 +972,7 @@ def _make_protocol(case, enc_algo_rng=None):
         so = SubsetGeneticAlgorithm(ngen=6, pop_size=12, rng=numpy.random.Generator(numpy.random.PCG64(case["draw"]["seed"])))
     else: so = _stub_algo(enc, case)
     kw["soalgo"] = so; kw["moalgo"] = _stub_algo(enc, case)
-    sfx = {"subset": "Subset", "real": "Real", "integer": "Integer", "binary": "Binary", "mate": "Subset", "imate": "Integer"}[enc]
+    sfx = ENC_SUFFIX[enc]
     if fam == "ebv":
         import pybrops.breed.prot.sel.EstimatedBreedingValueSelection as Mod
         P = getattr(Mod, "EstimatedBreedingValue%sSelection" % sfx); kw.update(ntrait=case["ntrait"], unscale=case.get("unscale", True))
@@ -648,15 +999,29 @@ def _make_protocol(case, enc_algo_rng=None):
     else: raise ValueError(fam)
     return P(**kw), so
 
-def _select_once(case, perm=None, with_crit=True, stage=None):
-    """`stage` (a list) receives the step reached: "construct" (the protocol's constructor), "select", "done" """
+def _select_once(case, perm=None, with_crit=True, stage=None, keep=None, step=None):
+    """`stage` (a list) receives the step reached: "construct" (the protocol's constructor), "select", "done".
+    `keep` (a dict) receives the protocol, its optimiser, the generator and the population objects; with `step` given the call is
+    a further select() on those SAME objects after the changes the step describes (setters / in-place breeding values / another
+    population)"""
     stage = [] if stage is None else stage
-    pg, bv, gm = _population(case, perm)
-    rng = _lazy(case["draw"])
+    if step is None:
+        pg, bv, gm = _population(case, perm)
+        rng = _lazy(case["draw"])
+    else:
+        rng = keep["rng"]; pg, bv, gm = keep["pop"]
+        if "perm" in step: pg, bv, gm = _population(case, step["perm"])
     out = {}
     with _patched_global(rng):
         stage.append("construct")
-        prot, so = _make_protocol(case)
+        if step is None:
+            prot, so = _make_protocol(case)
+            if keep is not None: keep.update(prot=prot, so=so, rng=rng, pop=(pg, bv, gm))
+        else:
+            prot, so = keep["prot"], keep["so"]
+            for k in ("ncross", "nparent", "nmating", "nprogeny"):
+                if k in step.get("set", {}): setattr(prot, k, _ival(step["set"][k], 0))
+            if "bv" in step: bv.mat[...] = numpy.array(step["bv"], dtype=float) / 8.0 * 2.0 ** case.get("bvexp", 0)
         misc = {} if case.get("miscout", True) else None
         args = dict(pgmat=pg, gmat=pg, ptdf=None, bvmat=bv, gpmod=gm, t_cur=0, t_max=1)
         stage.append("select")
@@ -691,7 +1056,9 @@ def _select_once(case, perm=None, with_crit=True, stage=None):
         out["stub_calls"] = getattr(so, "ncalls", None)
         out["post_draws"] = rng.used; rng.used = []
         # the per-candidate criterion of the protocol's own problem (what a truncation optimiser sorts)
-        if with_crit and case["nobj"] == 1 and case["enc"] in ("subset", "mate"):
+        # (Random*Selection draws its criterion from the generator: in a later call of a session the stream has moved on, a fresh
+        #  protocol cannot reproduce it - there the truncation clause is not judged, the configuration clauses are)
+        if with_crit and case["nobj"] == 1 and case["enc"] in ("subset", "mate") and not (step is not None and case["family"] == "random"):
             prng = _lazy(dict(case["draw"]))                     # Random*Selection draws its breeding values while building the problem
             with _patched_global(prng):
                 prot2, _ = _make_protocol(case)
@@ -700,15 +1067,36 @@ def _select_once(case, perm=None, with_crit=True, stage=None):
                 out["ndecn"] = int(prob.ndecn)
     return out
 
+def _session_cases(case):
+    """the case each further select() of a session is equivalent to (a fresh protocol built with the values in force, on the
+    population as it is at that call, in the candidates' original labelling for the predicate)"""
+    cur = {k: v for k, v in case.items() if k not in ("session", "relabel")}
+    out = []
+    for st in case.get("session", []):
+        cur = dict(cur, **st.get("set", {}))
+        if "bv" in st: cur = dict(cur, bv=st["bv"])
+        out.append((dict(cur), st))
+    return out
+
 def _run_select(case):
-    out = {}; stage = []
+    out = {}; stage = []; keep = {}
     try:
-        out.update(_select_once(case, stage=stage))
+        out.update(_select_once(case, stage=stage, keep=keep))
     except Exception as e:
         import traceback
         out["raised"] = type(e).__name__; out["msg"] = str(e)[:300]; out["tb"] = traceback.format_exc()[-600:]
         out["stage"] = stage[-1] if stage else "population"
         return out
+    if case.get("session"):
+        out["session"] = []
+        for cur, st in _session_cases(case):
+            try:
+                # `cur` describes the state in force: the criterion of a fresh protocol is computed for it (on the relabelled population if the step has one)
+                r = _select_once(dict(cur, relabel=None), perm=st.get("perm"), keep=keep, step=st)
+                out["session"].append(r)
+            except Exception as e:
+                import traceback
+                out["session"].append({"raised": type(e).__name__, "msg": str(e)[:300], "tb": traceback.format_exc()[-600:]}); break
     if case.get("relabel"):
         try:
             r = _select_once(case, perm=case["relabel"], with_crit=True)
@@ -764,9 +1152,23 @@ def _cfg_term(cls, nc, npar, decn, draws, order=None, xmap=None, dvar=None):
         core = "(cfg_real_f %s %s %s %s %s %s %s)" % (E.nat(nc), E.nat(npar), dvar or p, _nl(order), E.fhex(_fh(un[3])), _nl(sh[2]), _nll(pms))
         side = "PrimFloat.eqb (sus_dist_f (fsum %s) %s) %s && order_ok (map f2q %s) %s" % (p, E.nat(t), E.fhex(_fh(un[2])), p, _nl(order))
         return core, side
-    if cls == "mate":
+    if cls == "rmate":
+        # offset = rng.uniform(0, ptr_dist); rng.shuffle(sel) inside the sampler; rng.shuffle(out); lookup
+        if len(draws) != 3 or draws[0][0] != "uniform" or draws[1][0] != "shuffle" or draws[2][0] != "shuffle": return None
+        un, sh, sh2 = draws
+        if _fh(un[1]) != 0.0 or sh[1] != nc or sh2[1] != nc: return None
+        p = E.lst(decn, E.fhex)
+        core = "(cfg_real_mate_f %s %s %s %s %s %s %s %s)" % (E.nat(nc), E.nat(npar), dvar or p, E.lst(xmap, _zl), _nl(order), E.fhex(_fh(un[3])), _nl(sh[2]), _nl(sh2[2]))
+        side = "PrimFloat.eqb (sus_dist_f (fsum %s) %s) %s && order_ok (map f2q %s) %s" % (p, E.nat(nc), E.fhex(_fh(un[2])), p, _nl(order))
+        return core, side
+    if cls in ("mate", "bmate"):
         if len(draws) != 3 or draws[0][0] != "choice" or draws[1][0] != "shuffle" or draws[2][0] != "shuffle": return None
         ch, sh, sh2 = draws
+        if cls == "bmate":
+            if any(v < 0 for v in decn): return None
+            nopt = sum(decn); re = (nc % nopt) if nopt else 0
+            if ch[1] != nopt or ch[2] != re or ch[3] is not False or ch[4] is not False or sh[1] != nc or sh2[1] != nc: return None
+            return "(cfg_binary_mate %s %s %s %s %s %s %s)" % (E.nat(nc), E.nat(npar), dvar or _zl(decn), E.lst(xmap, _zl), _nl(ch[5]), _nl(sh[2]), _nl(sh2[2]))
         nopt = len(decn); re = (nc % nopt) if nopt else 0
         if ch[1] != nopt or ch[2] != re or ch[3] is not False or ch[4] is not False or sh[1] != nc or sh2[1] != nc: return None
         return "(cfg_mate %s %s %s %s %s %s %s)" % (E.nat(nc), E.nat(npar), dvar or _zl(decn), E.lst(xmap, _zl), _nl(ch[5]), _nl(sh[2]), _nl(sh2[2]))
@@ -780,12 +1182,12 @@ def _emit_cfg(case, out):
     else: decn = [int(v) for v in case["decn"]]
     if "raised" in out:
         # both fail: the model with the draws consumed so far (completed by nothing) must not produce a configuration
-        if (cls == "real") != (case["dtype"] == "float64") or (cls != "real" and case["dtype"] == "float64"): return None   # dtype checks: predicate only
+        if (cls in REAL_LIKE) != (case["dtype"] == "float64"): return None   # dtype checks: predicate only
         if not (isinstance(case["nmating"], int) and case["nmating"] > 0 and isinstance(case["nprogeny"], int) and case["nprogeny"] > 0):
             # (also reached by valid array-valued parameters: then the model's argument check must pass and nothing is claimed here)
             ok = _cfg_invalid(dict(case, decn=[0], dtype="int64", cls="subset")) is None
             return "(Bool.eqb (cfg_args_ok %s %s %s %s) %s)" % (E.nat(nc), E.nat(npar), _matpar(case["nmating"]), _matpar(case["nprogeny"]), E.b(ok))
-        if cls == "real":
+        if cls in REAL_LIKE:
             if sum(decn) > 0: return "false"
             return None                                                             # an all-zero contribution vector: predicate only
         t = nc * npar
@@ -793,10 +1195,10 @@ def _emit_cfg(case, out):
             return "(forallb (fun st => ozl_eqb (cfg_integer %s %s %s st %s []) None) (seq 0 %s))" % (E.nat(nc), E.nat(npar), _zl(decn), _nl(range(t)), E.nat(max(1, sum(v for v in decn if v > 0))))
         if cls == "imate":
             return "(forallb (fun st => ozll_eqb (cfg_integer_mate %s %s %s %s st %s) None) (seq 0 %s))" % (E.nat(nc), E.nat(npar), _zl(decn), E.lst(case["xmap"], _zl), _nl(range(nc)), E.nat(max(1, sum(v for v in decn if v > 0))))
-        fn = {"subset": "cfg_subset", "binary": "cfg_binary", "mate": "cfg_mate"}[cls]
-        if cls == "mate":
-            return "(ozll_eqb (cfg_mate %s %s %s %s [] %s %s) None)" % (E.nat(nc), E.nat(npar), _zl(decn), E.lst(case["xmap"], _zl),
-                                                                         _nl(range(nc)), _nl(range(nc)))
+        fn = {"subset": "cfg_subset", "binary": "cfg_binary", "mate": "cfg_mate", "bmate": "cfg_binary_mate"}[cls]
+        if cls in ("mate", "bmate"):
+            return "(ozll_eqb (%s %s %s %s %s [] %s %s) None)" % (fn, E.nat(nc), E.nat(npar), _zl(decn), E.lst(case["xmap"], _zl),
+                                                                   _nl(range(nc)), _nl(range(nc)))
         return "(ozl_eqb (%s %s %s %s [] %s []) None)" % (fn, E.nat(nc), E.nat(npar), _zl(decn), _nl(range(t)))
     parts = ["cfg_args_ok %s %s %s %s" % (E.nat(nc), E.nat(npar), _matpar(case["nmating"]), _matpar(case["nprogeny"]))]
     for which, xc, draws in (("first", out["xconfig"], out["draws"]), ("second", out["second"]["xconfig"], out["second"]["draws"])):
@@ -805,7 +1207,10 @@ def _emit_cfg(case, out):
         if cls == "real":
             core, side = tm
             parts.append("ozl_eqb %s (Some %s)" % (core, _zl(_flat(xc)))); parts.append(side)
-        elif cls in ("mate", "imate"):
+        elif cls == "rmate":
+            core, side = tm
+            parts.append("ozll_eqb %s (Some %s)" % (core, E.lst(xc, _zl))); parts.append(side)
+        elif cls in CROSS_BASED:
             parts.append("ozll_eqb %s (Some %s)" % (tm, E.lst(xc, _zl)))
         else:
             parts.append("ozl_eqb %s (Some %s)" % (tm, _zl(_flat(xc))))
@@ -820,8 +1225,26 @@ def _emit_xmap(case, out):
         return "(onatll_eqb %s None)" % term if out["raised"] == "RecursionError" else "false"
     return "(onatll_eqb %s (Some %s))" % (term, E.lst(out["out"], _nl))
 
+def _emit_life(case, out):
+    """every sampling of the session is the model's for the state in force at that call"""
+    cls = case["cls"]
+    if "raised" in out: return None                                  # every lifecycle request is valid: the predicate reports the exception
+    parts = []
+    for (nc, npar, decn, xmap), rec in zip(_life_states(case), out["steps"]):
+        if rec["op"] not in ("init", "sample"): continue
+        d = [_fh(h) for h in decn] if cls in REAL_LIKE else [int(v) for v in decn]
+        tm = _cfg_term(cls, nc, npar, d, rec["draws"], rec.get("order"), xmap)
+        if tm is None or rec["shape"] != [nc, npar]: return "false"
+        if cls in REAL_LIKE: core, side = tm; parts.append(side)
+        else: core = tm
+        if cls in CROSS_BASED: parts.append("ozll_eqb %s (Some %s)" % (core, E.lst(rec["xconfig"], _zl)))
+        else: parts.append("ozl_eqb %s (Some %s)" % (core, _zl(_flat(rec["xconfig"]))))
+    return "(" + "\n  && ".join(parts) + ")"
+
 def emit_case(case, out):
     if "exc" in out: return "false"
+    if case["kind"] == "audit": return None
+    if case["kind"] == "life": return _emit_life(case, out)
     if case["kind"] == "cfg": return _emit_cfg(case, out)
     if case["kind"] == "xmap": return _emit_xmap(case, out)
     if case["kind"] == "select": return _emit_select(case, out)
@@ -838,13 +1261,31 @@ def _matpar(v):
     return "(MScalar %s)" % E.z(v) if isinstance(v, int) else "(MArray %s)" % _zl(v)
 
 def _emit_select(case, out):
+    first = _emit_select1(case, out)
+    if "session" not in out or first in (None, "false") or "raised" in out: return first
+    parts = [first]
+    for (cur, st), o in zip(_session_cases(case), out["session"]):
+        t = _emit_select1(cur, o)
+        if t is None: continue
+        parts.append(t)
+    return "(" + "\n  && ".join(parts) + ")"
+
+def _emit_select1(case, out):
     enc = case["enc"]; nc, npar = case["ncross"], case["nparent"]
     args_ok = "proto_args_ok %s %s %s %s" % (E.nat(nc), E.nat(npar), _matpar(case["nmating"]), _matpar(case["nprogeny"]))
+    ucb = None
+    if case["family"] == "uc" and enc == "imate":
+        # UsefulnessCriterionIntegerSelection.problem stacks two bounds of different lengths unless there is one cross (finding C07-uc-integer-bounds-shape)
+        nx = len(list(itertools.combinations(range(case["ntaxa"]), npar) if case.get("unique", True) else itertools.combinations_with_replacement(range(case["ntaxa"]), npar)))
+        nm = case["nmating"] if isinstance(case["nmating"], list) else [case["nmating"]] * nc
+        ucb = "is_none (uc_int_bounds %s %s %s %s)" % (E.nat(nc), E.nat(npar), _zl(nm), E.nat(nx))
     if "raised" in out:
         # the constructor refuses exactly the cross-design parameters the model refuses; other refusals are judged by the predicate
-        return "(Bool.eqb (%s) %s)" % (args_ok, E.b(out.get("stage") != "construct"))
+        t = "(Bool.eqb (%s) %s)" % (args_ok, E.b(out.get("stage") != "construct"))
+        if ucb and _uc_bounds_site(out): t = "(%s && %s)" % (t, ucb)
+        return t
     if out["shape"] != [nc, npar]: return "false"
-    real = enc == "real"
+    real = enc in REAL_LIKE
     decn = [_fh(h) for h in out["decn"]] if real else [int(v) for v in out["decn"]]
     xc = out["xconfig"]
     # draws made while the problem is built (random breeding values of Random*Selection) precede the configuration's draws
@@ -853,9 +1294,10 @@ def _emit_select(case, out):
     tm = _cfg_term(enc, nc, npar, decn, cdraws, out.get("order"), out.get("xmap"))
     if tm is None: return "false"
     parts = [args_ok]
+    if ucb: parts.append("negb (%s)" % ucb)
     if real: core, side = tm; parts.append(side)
     else: core = tm
-    matelike = enc in ("mate", "imate")
+    matelike = enc in CROSS_BASED
     want_xc = E.lst(xc, _zl) if matelike else _zl(_flat(xc))
     eqx = "ozll_eqb" if matelike else "ozl_eqb"
     soln = out.get("soln_decn")
@@ -916,6 +1358,22 @@ def _valid_cfg(cls, nc, npar, decn, xc, xmap=None, strict_real=True):
     if len(xc) != nc or any(len(r) != npar for r in xc):
         return ["configuration has shape %r, requested (%d,%d)" % ([len(xc), len(xc[0]) if xc else 0], nc, npar)]
     flat = _flat(xc)
+    if cls == "bmate":
+        # 0/1 vector over the candidate crosses: the marked crosses are the units that are used evenly
+        return _valid_cfg("mate", nc, npar, [i for i, x in enumerate(decn) for _ in range(int(x))], xc, xmap)
+    if cls == "rmate":
+        # contribution vector over the candidate crosses: cross d is used the floor or the ceiling of nc*x_d/sum(x) times
+        rows = [tuple(r) for r in xc]
+        S = sum(F(x) for x in decn); share = {}
+        for d, x in enumerate(decn):
+            if x > 0: share[tuple(xmap[d])] = share.get(tuple(xmap[d]), 0) + F(x) * nc / S
+        for r in rows:
+            if r not in share: bad.append("cross %r is not a candidate cross with a positive contribution in the chosen solution" % (list(r),)); break
+        if len(share) == sum(1 for x in decn if x > 0):           # distinct rows: per-cross floor / ceiling
+            for c, sh in share.items():
+                n = rows.count(c)
+                if not (_floor(sh) <= n <= _ceil(sh)): bad.append("candidate cross %r used %d times, proportional share %s" % (list(c), n, float(sh))); break
+        return bad
     if cls == "imate":
         # integer vector over the candidate crosses of the map: cross d is used within one of its proportional share nc*x_d/sum(x)
         rows = [tuple(r) for r in xc]
@@ -988,20 +1446,20 @@ def _cfg_invalid(case):
             if v <= 0: return key
         elif len(v) != nc or any(x <= 0 for x in v): return key
     fl = case["dtype"] == "float64"
-    if (cls == "real") != fl: return "dtype"
+    if (cls in REAL_LIKE) != fl: return "dtype"
     d = case["decn"]
     if len(d) == 0: return "empty"
-    if cls == "real":
+    if cls in REAL_LIKE:
         w = [_fh(h) if isinstance(h, str) else float(h) for h in d]
         if any(x < 0 for x in w) or sum(w) <= 0: return "weights"
-    if cls in ("integer", "binary", "imate"):
+    if cls in ("integer", "binary", "imate", "bmate"):
         if any(x < 0 for x in d) or sum(d) <= 0: return "counts"
         if cls == "binary" and any(x not in (0, 1) for x in d): return "not binary"
     if cls == "mate":
         xm = case["xmap"]
         if any(len(r) != npar for r in xm): return "xmap width"
         if any(not (0 <= x < len(xm)) for x in d): return "xmap index"
-    if cls == "imate":
+    if cls in ("imate", "bmate", "rmate"):
         xm = case["xmap"]
         if any(len(r) != npar for r in xm): return "xmap width"
         if len(d) != len(xm): return "xmap length"
@@ -1017,7 +1475,7 @@ def _pred_cfg(case, out):
         return ["invalid request (%s) was accepted" % inv]
     if inv is not None: return []                      # degenerate vectors (all-zero weights): no claim
     cls = case["cls"]; nc, npar = case["ncross"], case["nparent"]
-    decn = [_fh(h) for h in case["decn"]] if cls == "real" else [int(v) for v in case["decn"]]
+    decn = [_fh(h) for h in case["decn"]] if cls in REAL_LIKE else [int(v) for v in case["decn"]]
     if out["shape"] != [nc, npar]: bad.append("xconfig shape %r != (%d,%d)" % (out["shape"], nc, npar))
     if not out["dtype"].startswith("int"): bad.append("xconfig dtype %s is not integer" % out["dtype"])
     if out["ncross"] != nc or out["nparent"] != npar: bad.append("ncross/nparent not stored as requested")
@@ -1027,7 +1485,13 @@ def _pred_cfg(case, out):
     if not out["pgmat_same"]: bad.append("pgmat is not the candidate population handed in")
     if not out["decn_same"] or not out["decn_same2"]: bad.append("xconfig_decn is not the chosen decision (replaced or modified)")
     if not out["rng_same"]: bad.append("the configuration does not keep the generator it was given")
-    if cls in ("mate", "imate") and not out.get("xmap_same", True): bad.append("cross map replaced or modified")
+    if cls in CROSS_BASED and not out.get("xmap_same", True): bad.append("cross map replaced or modified")
+    al = out.get("alias")
+    if al:
+        if al["shares"]: bad.append("the sampled xconfig shares memory with the decision vector / the cross map")
+        if not al["decn_intact"]: bad.append("overwriting the sampled xconfig in place changed the decision vector")
+        if not al["xmap_intact"]: bad.append("overwriting the sampled xconfig in place changed the cross map")
+        if not al["first_intact"]: bad.append("overwriting the second sample in place changed the matrix returned by the first")
     for which, xc in (("", out["xconfig"]), ("second sample: ", out["second"]["xconfig"])):
         for b in _valid_cfg(cls, nc, npar, decn, xc, case.get("xmap")): bad.append(which + b)
     sec = out["second"]
@@ -1051,10 +1515,39 @@ def _pred_xmap(case, out):
                 % (fn, n, k, (",%r" % case["unique"]) if fn == "xmapix" else "", "strictly increasing" if uniq else "non-decreasing", k, n, len(out["out"]), len(want))]
     return []
 
+def _pred_life(case, out):
+    bad = []
+    cls = case["cls"]; cross = cls in CROSS_BASED
+    if "raised" in out:
+        return ["%s raised %s at step %d of a valid lifecycle: %s" % (CFG_CLASS[cls], out["raised"], out["at"], out["msg"])]
+    for i, ((nc, npar, decn, xmap), rec) in enumerate(zip(_life_states(case), out["steps"])):
+        op = rec["op"]; tag = "step %d (%s): " % (i, op)
+        if op in ("init", "sample"):
+            d = [_fh(h) for h in decn] if cls in REAL_LIKE else [int(v) for v in decn]
+            now = [_fh(h) for h in rec["decn_now"]] if cls in REAL_LIKE else rec["decn_now"]
+            if now != d: bad.append(tag + "the configuration's decision vector is %r, the state set by the caller is %r" % (now[:8], d[:8]))
+            if cross and rec["xmap_now"] != xmap: bad.append(tag + "the configuration's cross map is not the one set by the caller")
+            if (rec["ncross"], rec["nparent"]) != (nc, npar): bad.append(tag + "ncross/nparent are (%d,%d), set to (%d,%d)" % (rec["ncross"], rec["nparent"], nc, npar))
+            if rec["shape"] != [nc, npar]: bad.append(tag + "xconfig shape %r != (%d,%d)" % (rec["shape"], nc, npar)); continue
+            if not rec["dtype"].startswith("int"): bad.append(tag + "xconfig dtype %s is not integer" % rec["dtype"])
+            for b in _valid_cfg(cls, nc, npar, d, rec["xconfig"], xmap): bad.append(tag + b)
+            if not rec["draws"]: bad.append(tag + "no draw was requested from the configuration's generator")
+            if op == "sample" and not rec["ret_is_xconfig"]: bad.append(tag + "sample_xconfig(return_xconfig=True) did not return the stored xconfig")
+            if rec.get("orig_intact") is False: bad.append(tag + "sampling the copy changed the xconfig of the object it was copied from")
+        else:
+            if rec.get("stale_draws"): bad.append(tag + "%d draws were requested by a setter / a copy" % rec["stale_draws"])
+            if op == "copy" and not (rec["rng_shared"] and rec["decn_shared"] and rec["pgmat_shared"]): bad.append(tag + "copy.copy does not share generator / decision vector / population with the original")
+            if op == "deepcopy":
+                if rec["decn_shared"]: bad.append(tag + "copy.deepcopy shares the decision vector with the original")
+                if not rec["xconfig_equal"] or not rec["class_same"]: bad.append(tag + "copy.deepcopy does not carry an equal, separate xconfig")
+            if op == "set_rng" and not rec["rng_is_new"]: bad.append(tag + "the rng setter did not install the generator")
+    if any(out.get("retired_used", [])): bad.append("a generator that had been replaced through the rng setter was still consulted")
+    return bad
+
 def pred(case, out):
     """the property, stated directly on the implementation's outputs (independent of the Coq model)"""
     if "exc" in out: return ["harness driver raised %s: %s" % (out["exc"], out["msg"])]
-    bad = {"cfg": _pred_cfg, "xmap": _pred_xmap, "select": _pred_select}[case["kind"]](case, out)
+    bad = {"cfg": _pred_cfg, "xmap": _pred_xmap, "select": _pred_select, "life": _pred_life, "audit": _pred_audit}[case["kind"]](case, out)
     seen = []
     for b in bad:
         if b not in seen: seen.append(b)
@@ -1063,6 +1556,16 @@ def pred(case, out):
 ADDITIVE = ("ebv", "gebv", "random", "ohv", "uc")
 
 def _pred_select(case, out):
+    bad = _pred_select1(case, out)
+    if "session" in out and "raised" not in out:
+        for i, ((cur, st), o) in enumerate(zip(_session_cases(case), out["session"])):
+            c2 = dict(cur)
+            if "perm" in st: c2["bv"] = [cur["bv"][j] for j in st["perm"]]
+            what = "set %r" % st["set"] if "set" in st else ("breeding values overwritten in place" if "bv" in st else "relabelled population")
+            for b in _pred_select1(c2, o): bad.append("select() #%d on the same protocol (%s): %s" % (i + 2, what, b))
+    return bad
+
+def _pred_select1(case, out):
     bad = []
     enc = case["enc"]; nc, npar = case["ncross"], case["nparent"]; fam = case["family"]
     inv = None                                                         # cross-design parameters no configuration can carry
@@ -1085,7 +1588,7 @@ def _pred_select(case, out):
     if inv is not None: bad.append("invalid request (%s=%r) was accepted" % (inv, case[inv]))
     if k_need is not None and nspace is not None and k_need > nspace:
         bad.append("a subset of %d members was selected from %d candidates" % (k_need, nspace))
-    real = enc == "real"
+    real = enc in REAL_LIKE
     decn = [_fh(h) for h in out["decn"]] if real else [int(v) for v in out["decn"]]
     if out["shape"] != [nc, npar]: bad.append("xconfig shape %r != (%d,%d)" % (out["shape"], nc, npar))
     if not out["dtype"].startswith("int"): bad.append("xconfig dtype %s is not integer" % out["dtype"])
@@ -1094,8 +1597,7 @@ def _pred_select(case, out):
         want = case[key] if isinstance(case[key], list) else [case[key]] * nc
         if out[key] != want: bad.append("%s of the configuration is %r, the protocol was built with %r" % (key, out[key], want))
     if not out["pgmat_same"]: bad.append("configuration's pgmat is not the candidate population handed to select()")
-    want_cls = {"subset": "SubsetSelectionConfiguration", "real": "RealSelectionConfiguration", "integer": "IntegerSelectionConfiguration",
-                "binary": "BinarySelectionConfiguration", "mate": "SubsetMateSelectionConfiguration", "imate": "IntegerMateSelectionConfiguration"}[enc]
+    want_cls = CFG_CLASS[enc]
     if out["cfg_class"] != want_cls: bad.append("configuration class %s, expected %s" % (out["cfg_class"], want_cls))
     if not out["draws"]: bad.append("the configuration was sampled without consulting the (global) generator")
     # --- the solution and the choice among solutions
@@ -1117,16 +1619,19 @@ def _pred_select(case, out):
                                    % (got, [float(sc[i]) for i in got], ix, float(sc[ix])))
                 want_wt = 1.0 if case.get("ndset_wt") is None else case["ndset_wt"]
                 if _fh(out["ndset_wt"]) != want_wt: bad.append("ndset_wt %r differs from the declared %r" % (_fh(out["ndset_wt"]), want_wt))
-            if enc in ("mate", "imate") and not out.get("soln_xmap_same", True): bad.append("configuration's cross map differs from the solution's")
+            if enc in CROSS_BASED and not out.get("soln_xmap_same", True): bad.append("configuration's cross map differs from the solution's")
     # --- configuration clauses relative to the chosen decision
     xmap = out.get("xmap")
-    if enc in ("mate", "imate"):
+    if enc in CROSS_BASED:
         uniq = case.get("unique", True)
         want = [list(c) for c in (itertools.combinations(range(case["ntaxa"]), npar) if uniq else itertools.combinations_with_replacement(range(case["ntaxa"]), npar))]
         if xmap != want: bad.append("cross map is not the lexicographic list of %s %d-tuples of candidates" % ("strictly increasing" if uniq else "non-decreasing", npar))
         if enc == "mate" and any(not (0 <= d < len(xmap)) for d in decn): bad.append("decision refers to a cross outside the map"); return bad
-        if enc == "imate" and len(decn) != len(xmap): bad.append("decision vector does not have one count per candidate cross"); return bad
-    if enc in ("integer", "binary", "imate") and (any(v < 0 for v in decn) or sum(decn) <= 0): return bad + ["degenerate integer decision %r" % decn]
+        if enc in ("imate", "bmate", "rmate") and len(decn) != len(xmap): bad.append("decision vector does not have one entry per candidate cross"); return bad
+    if enc in ("real", "integer", "binary") and len(decn) != case["ntaxa"]:
+        bad.append("decision vector has %d entries, the candidate population has %d individuals" % (len(decn), case["ntaxa"])); return bad
+    if enc in ("integer", "binary", "imate", "bmate") and (any(v < 0 for v in decn) or sum(decn) <= 0): return bad + ["degenerate integer decision %r" % decn]
+    if enc in ("binary", "bmate") and any(v not in (0, 1) for v in decn): return bad + ["binary decision %r has an entry other than 0 and 1" % decn]
     if real and (any(v < 0 for v in decn) or sum(decn) <= 0): return bad + ["degenerate contribution vector"]
     if enc in ("subset", "mate") and len(set(decn)) != len(decn) and case["algo"] != "hc": bad.append("chosen solution %r repeats a member" % decn)
     if enc == "subset" and any(not (0 <= d < case["ntaxa"]) for d in decn): bad.append("chosen solution refers to a non-candidate")
@@ -1141,7 +1646,8 @@ def _pred_select(case, out):
             bad.append("chosen members %r (criteria %r) are not the %d best candidates (criteria %r)" % (decn, [float(c) for c in chosen], k, [float(c) for c in sorted(crit)[:k]]))
         if fam == "ebv":
             wt = 1.0 if case.get("obj_wt") is None else case["obj_wt"]
-            val = lambda i, t: (F(case["bv"][i][t], 8) * F(case.get("scale", [1.0] * case["ntrait"])[t]) + F(case.get("loc", [0.0] * case["ntrait"])[t])) if case.get("unscale", True) else F(case["bv"][i][t], 8)
+            b8 = lambda i, t: F(case["bv"][i][t], 8) * F(2) ** case.get("bvexp", 0)
+            val = lambda i, t: (b8(i, t) * F(case.get("scale", [1.0] * case["ntrait"])[t]) + F(case.get("loc", [0.0] * case["ntrait"])[t])) if case.get("unscale", True) else b8(i, t)
             want = [F(wt) * -sum(val(i, t) for t in range(case["ntrait"])) for i in range(case["ntaxa"])]
             if crit != want: bad.append("the protocol's per-candidate criterion is not the weighted negated breeding value")
         # relabelling the candidates permutes the choice
@@ -1168,19 +1674,32 @@ def _pred_select(case, out):
                 if distinct:
                     if sorted(orig(d2) for d2 in rl["decn"]) != mine: bad.append("relabelled run chose crosses %r, original run %r" % (sorted(orig(d2) for d2 in rl["decn"]), mine))
     rl0 = out.get("relabel")
-    if rl0 and rl0.get("xconfig") and enc not in ("mate", "imate"):
+    if rl0 and rl0.get("xconfig") and enc not in CROSS_BASED:
         lo = _local_opt(rl0["xconfig"])
         if lo: bad.append("relabelled run: " + lo)
     if out.get("post_draws"): bad.append("draws after select() returned")
     return bad
 
 # ================================================================== findings, evidence
+UC_MSG = "uc imate select() raised ValueError: all input arrays must have the same shape"
+def _uc_bounds_site(out):
+    return out.get("raised") == "ValueError" and "numpy.stack([decn_space_lower,decn_space_upper])" in out.get("tb", "") and "UsefulnessCriterionSelection.py" in out.get("tb", "")
+
 def classify(case, out, clauses):
-    """no finding of this property is open: C07-integer-share, C07-integer-mate-share, C07-zero-mating-late and
-    C07-mating-shape-late are repaired (status fixed: their witnesses are re-run on every check and must pass)"""
+    """open: C07-uc-integer-bounds-shape (UsefulnessCriterionIntegerSelection.problem cannot stack its decision-space bounds when the
+    protocol asks for two or more crosses) - matched narrowly: family uc, integer-mate encoding, every failing select() asked for
+    ncross >= 2 and raised the ValueError of that numpy.stack call.  C07-integer-share, C07-integer-mate-share, C07-zero-mating-late
+    and C07-mating-shape-late are repaired (status fixed: their witnesses are re-run on every check and must pass)"""
+    if case.get("kind") == "select" and case.get("family") == "uc" and case.get("enc") == "imate" and clauses and all(UC_MSG in c for c in clauses):
+        if "raised" in out: calls = [(case["ncross"], out)]
+        else: calls = [(cur["ncross"], o) for (cur, st), o in zip(_session_cases(case), out.get("session", [])) if "raised" in o]
+        if calls and all(n >= 2 and _uc_bounds_site(o) for n, o in calls): return "C07-uc-integer-bounds-shape"
     return None
 
 def nontrivial(case, out):
+    if case["kind"] == "audit": return False
+    if case["kind"] == "life":
+        return "raised" not in out and any(st["op"] != "sample" for st in case["steps"]) and len(set(map(str, case["decn"]))) >= 2
     if case["kind"] == "cfg":
         if "raised" in out: return False
         d = case["decn"]
@@ -1196,10 +1715,21 @@ def describe(case, out):
     if case["kind"] == "cfg":
         t = case["ncross"] * case["nparent"]
         d.update({"cls": case["cls"], "nparent": case["nparent"], "ncross": min(case["ncross"], 4), "dtype": case["dtype"], "draws": case["draw"]["mode"],
-                  "grid": case.get("grid", "-"), "selfpaired_final": "n/a" if ("raised" in out or case["cls"] in ("mate", "imate")) else str(min(_score(out["xconfig"]), 3))})
+                  "grid": case.get("grid", "-"), "large": bool(case.get("large")), "wkind": str(case.get("wkind", "-")).split("*")[-1] if "*" in str(case.get("wkind", "")) else "1",
+                  "selfpaired_final": "n/a" if ("raised" in out or case["cls"] in CROSS_BASED) else str(min(_score(out["xconfig"]), 3))})
+    elif case["kind"] == "life":
+        d.update({"cls": case["cls"], "ops": ",".join(sorted(set(st["op"] for st in case["steps"])))})
     elif case["kind"] == "select":
         d.update({"family": case["family"], "enc": case["enc"], "nobj": case["nobj"], "algo": case["algo"], "relabel": bool(case.get("relabel")),
+                  "session": ",".join(sorted(k for st in case.get("session", []) for k in st)) or "-", "bvexp": case.get("bvexp", 0),
                   "ndset": case.get("ndset", "n/a"), "ties": len(set(map(tuple, case["bv"]))) < len(case["bv"])})
     elif case["kind"] == "xmap":
         d.update({"fn": case["fn"], "k": case["k"], "n": "0" if case["n"] == 0 else ("1-3" if case["n"] <= 3 else "4-7")})
     return d
+
+
+def translate(repo, gen_dir):
+    """regenerate Gen/C07_Kernel.v (kernel expressions of the six sample_xconfig methods, the protocol / configuration setters, the
+    six select() methods, triudix / triuix / xmapix and the sorting optimiser) from the current source; fail closed"""
+    from translate import c07_kernel
+    return [c07_kernel.translate(repo, gen_dir)]
